@@ -140,7 +140,7 @@ Lemma int_width_range z : let k := int_width z in
   In k [1; 2; 4; 8]%nat /\
   ((- two63 <=? z) && (z <? two63) = true -> - 2 ^ (8 * Z.of_nat k - 1) <= z < 2 ^ (8 * Z.of_nat k - 1))%Z.
 Proof.
-  unfold int_width, two63.
+  unfold int_width, CE_INT_FITS1, CE_INT_FITS2, CE_INT_FITS3, CE_INT_W1, CE_INT_W2, CE_INT_W3, CE_INT_W4, two63.
   repeat match goal with |- context [if ?c then _ else _] => destruct c eqn:? end; cbn [In]; split; auto 10; intros H.
   all: repeat match goal with H : (_ && _)%bool = true |- _ => apply andb_true_iff in H; destruct H end.
   all: repeat match goal with H : (_ <=? _)%Z = true |- _ => apply Z.leb_le in H | H : (_ <? _)%Z = true |- _ => apply Z.ltb_lt in H end.
@@ -149,7 +149,7 @@ Qed.
 Lemma uint_width_range n : let k := uint_width n in
   In k [1; 2; 4; 8]%nat /\ (n <? two64 = true -> n < 256 ^ N.of_nat k).
 Proof.
-  unfold uint_width, two64.
+  unfold uint_width, CE_UINT_FITS1, CE_UINT_FITS2, CE_UINT_FITS3, CE_UINT_W1, CE_UINT_W2, CE_UINT_W3, CE_UINT_W4, two64.
   repeat match goal with |- context [if ?c then _ else _] => destruct c eqn:? end; cbn [In]; split; auto 10; intros H.
   all: repeat match goal with H : (_ <=? _) = true |- _ => apply N.leb_le in H | H : (_ <? _) = true |- _ => apply N.ltb_lt in H end.
   all: cbn; lia.
@@ -157,7 +157,7 @@ Qed.
 
 Theorem num_roundtrip n : num_in_range n = true -> num_decode (compact_encode n) = Ok (normalise_num n).
 Proof.
-  destruct n as [z|u|b]; cbn [num_in_range compact_encode normalise_num]; intros Hr.
+  destruct n as [z|u|b]; cbn [num_in_range compact_encode normalise_num]; unfold CE_INT_ZERO, CE_UINT_ZERO; intros Hr.
   - destruct (z =? 0)%Z eqn:Ez; [reflexivity|].
     destruct (int_width_range z) as [Hin Hrange]. specialize (Hrange Hr).
     cbn [num_decode]. rewrite be_bytes_length.
@@ -210,8 +210,8 @@ Lemma compact_encode_shortest_uint u : u <> 0 -> u < two64 ->
   length (compact_encode (NUInt u)) = S (uint_width u) /\
   (forall k, In k [1; 2; 4; 8]%nat -> u < 256 ^ N.of_nat k -> (uint_width u <= k)%nat).
 Proof.
-  intros Hu Hr. cbn [compact_encode]. apply N.eqb_neq in Hu. rewrite Hu. cbn [length]. rewrite be_bytes_length. split; [reflexivity|].
-  intros k Hk Hlt. unfold uint_width.
+  intros Hu Hr. cbn [compact_encode]. unfold CE_UINT_ZERO. apply N.eqb_neq in Hu. rewrite Hu. cbn [length]. rewrite be_bytes_length. split; [reflexivity|].
+  intros k Hk Hlt. unfold uint_width, CE_UINT_FITS1, CE_UINT_FITS2, CE_UINT_FITS3, CE_UINT_W1, CE_UINT_W2, CE_UINT_W3, CE_UINT_W4.
   repeat match goal with |- context [if ?c then _ else _] => destruct c eqn:? end;
     repeat match goal with H : (_ <=? _) = false |- _ => apply N.leb_gt in H end;
     cbn [In] in Hk; destruct Hk as [<-|[<-|[<-|[<-|[]]]]]; cbn in Hlt; lia.
